@@ -118,3 +118,25 @@ def uplink_overlay_inverse(ov: int) -> int:
         if cur != (ov >> i) & 1:
             a |= 1 << i
     return a
+
+
+def clmul(a: int, b: int) -> int:
+    r = 0
+    while a:
+        if a & 1:
+            r ^= b
+        a >>= 1
+        b <<= 1
+    return r
+
+
+def frame_with_run_remainder(rng, nbits: int) -> int:
+    """an nbits-wide value whose long division by GEN, after k steps, leaves a running remainder that is a leading one
+    followed by 45+ ones (then arbitrary bits): boundary pattern of the INTERMEDIATE state of every CRC-style divider"""
+    k = rng.randrange(0, min(nbits - 24, nbits - 45) + 1)
+    pos = nbits - 1 - k                      # degree of the remainder after k quotient bits
+    L = rng.randint(45, min(pos + 1, 90))
+    low = pos + 1 - L
+    rem = (((1 << L) - 1) << low) | (rng.getrandbits(low) if low else 0)
+    q = (1 << (k - 1)) | rng.getrandbits(k - 1) if k > 1 else (1 if k == 1 else 0)
+    return (clmul(q, GEN) << (nbits - 24 - k)) ^ rem if k else rem
